@@ -323,7 +323,7 @@ func checkC20(c *Ctx) (string, bool, []string) {
 			}
 			variants := []c20variant{{}, {into: true}}
 			if l <= 2 || idx%17 == 0 {
-				variants = append(variants, c20variant{omitTime: true}, c20variant{timeAlias: "x"}, c20variant{into: true, omitTime: true}, c20variant{timeAlias: "a"})
+				variants = append(variants, c20variant{omitTime: true}, c20variant{timeAlias: "x"}, c20variant{into: true, omitTime: true}, c20variant{timeAlias: "a"}, c20variant{timeAlias: " "}, c20variant{timeAlias: "\t\n"}, c20variant{timeAlias: "\u00a0"}, c20variant{timeAlias: "time"})
 			}
 			for vi, v := range variants {
 				c20One(c, fields, v, local)
@@ -363,7 +363,7 @@ func checkC20(c *Ctx) (string, bool, []string) {
 		}
 		v := c20variant{into: rg.P(0.3), omitTime: rg.P(0.2)}
 		if rg.P(0.2) {
-			v.timeAlias = rg.Pick("x", "a", "mean")
+			v.timeAlias = rg.Pick("x", "a", "mean", "time", "Time", "a_1", " ", "\t", "  \n", "\u00a0", " ts ", "", "0", "%d", "a b", "é", "\"q\"")
 		}
 		c20One(c, fields, v, local)
 		r.DistinctStr(c20Text(fields, v) + fmt.Sprint(v))
